@@ -211,3 +211,182 @@ func c31Facts(repo string, facts map[string]any) {
 	}
 	facts["c31"] = map[string]any{"blocks": blocks, "ctx": ctxs, "skipped_files": skipped}
 }
+
+// ---- context capture of the long-lived expansion callbacks ------------------------------------
+//
+// fillExpandConfig builds closures (CmdSubst, ProcSubst, …) that live in r.ecfg.  Which context do
+// they use: the `ctx` parameter of the fillExpandConfig call that built them ("param"), or a Runner
+// field that Run refreshes ("field:ectx")?  And who calls fillExpandConfig, conditionally or not,
+// with which argument?  (C31 obligation `ctx_capture`.)
+
+type c31FillCall struct {
+	Func        string `json:"func"`
+	Conditional bool   `json:"conditional"` // inside an if/for/switch/select/closure of the caller
+	Arg         string `json:"arg"`         // param (a context parameter of the caller) | field:<name> | other:<src>
+}
+
+type c31Callback struct {
+	Func   string `json:"func"`   // constructor
+	Name   string `json:"name"`   // key in the composite literal / assigned field
+	Source string `json:"source"` // param | field:ectx | both | none
+}
+
+func c31CtxParams(fd *ast.FuncDecl) map[string]bool {
+	out := map[string]bool{}
+	if fd.Type.Params == nil {
+		return out
+	}
+	for _, f := range fd.Type.Params.List {
+		if src(f.Type) == "context.Context" {
+			for _, n := range f.Names {
+				out[n.Name] = true
+			}
+		}
+	}
+	return out
+}
+
+func c31CaptureFacts(p *pkgInfo) ([]c31FillCall, []c31Callback) {
+	var calls []c31FillCall
+	var cbs []c31Callback
+	var names []string
+	for n := range p.files {
+		names = append(names, n)
+	}
+	sort.Strings(names)
+	for _, fn := range names {
+		f := p.files[fn]
+		if !c31BuildsOnLinux(f, fn) {
+			continue
+		}
+		for _, d := range f.Decls {
+			fd, ok := d.(*ast.FuncDecl)
+			if !ok || fd.Body == nil {
+				continue
+			}
+			fname := fd.Name.Name
+			recv := ""
+			if fd.Recv != nil && len(fd.Recv.List) > 0 {
+				fname = strings.TrimPrefix(src(fd.Recv.List[0].Type), "*") + "." + fname
+				if len(fd.Recv.List[0].Names) > 0 {
+					recv = fd.Recv.List[0].Names[0].Name
+				}
+			}
+			params := c31CtxParams(fd)
+			// calls of fillExpandConfig, with nesting
+			var walk func(n ast.Node, cond bool)
+			walk = func(n ast.Node, cond bool) {
+				ast.Inspect(n, func(x ast.Node) bool {
+					switch x := x.(type) {
+					case *ast.IfStmt:
+						if x.Init != nil {
+							walk(x.Init, cond)
+						}
+						walk(x.Cond, cond)
+						walk(x.Body, true)
+						if x.Else != nil {
+							walk(x.Else, true)
+						}
+						return false
+					case *ast.ForStmt, *ast.RangeStmt, *ast.SwitchStmt, *ast.TypeSwitchStmt, *ast.SelectStmt, *ast.FuncLit:
+						if x != n {
+							walk2 := x
+							ast.Inspect(walk2, func(y ast.Node) bool {
+								if y == walk2 {
+									return true
+								}
+								if y != nil {
+									walk(y, true)
+								}
+								return false
+							})
+							return false
+						}
+					case *ast.CallExpr:
+						if se, ok := x.Fun.(*ast.SelectorExpr); ok && se.Sel.Name == "fillExpandConfig" && len(x.Args) == 1 {
+							arg := "other:" + src(x.Args[0])
+							switch a := x.Args[0].(type) {
+							case *ast.Ident:
+								if params[a.Name] {
+									arg = "param"
+								}
+							case *ast.SelectorExpr:
+								arg = "field:" + a.Sel.Name
+							}
+							calls = append(calls, c31FillCall{fname, cond, arg})
+						}
+					}
+					return true
+				})
+			}
+			walk(fd.Body, false)
+			// callbacks built by a constructor that takes a context parameter and stores closures
+			if len(params) == 0 || recv == "" {
+				continue
+			}
+			classify := func(fl *ast.FuncLit) string {
+				usesParam, usesField := false, false
+				shadow := map[string]bool{}
+				if fl.Type.Params != nil {
+					for _, pf := range fl.Type.Params.List {
+						for _, n := range pf.Names {
+							shadow[n.Name] = true
+						}
+					}
+				}
+				ast.Inspect(fl.Body, func(y ast.Node) bool {
+					switch y := y.(type) {
+					case *ast.Ident:
+						if params[y.Name] && !shadow[y.Name] {
+							usesParam = true
+						}
+					case *ast.SelectorExpr:
+						if id, ok := y.X.(*ast.Ident); ok && id.Name == recv && y.Sel.Name == "ectx" {
+							usesField = true
+						}
+					}
+					return true
+				})
+				switch {
+				case usesParam && usesField:
+					return "both"
+				case usesParam:
+					return "param"
+				case usesField:
+					return "field:ectx"
+				}
+				return "none"
+			}
+			ast.Inspect(fd.Body, func(x ast.Node) bool {
+				switch x := x.(type) {
+				case *ast.KeyValueExpr:
+					if fl, ok := x.Value.(*ast.FuncLit); ok {
+						cbs = append(cbs, c31Callback{fname, src(x.Key), classify(fl)})
+						return false
+					}
+				case *ast.AssignStmt:
+					for i, r := range x.Rhs {
+						if fl, ok := r.(*ast.FuncLit); ok && i < len(x.Lhs) {
+							if _, isSel := x.Lhs[i].(*ast.SelectorExpr); isSel {
+								cbs = append(cbs, c31Callback{fname, src(x.Lhs[i]), classify(fl)})
+							}
+						}
+					}
+				}
+				return true
+			})
+		}
+	}
+	return calls, cbs
+}
+
+func init() {
+	extraFacts = append(extraFacts, func(repo string, facts map[string]any) {
+		p := loadPkg(filepath.Join(repo, "interp"))
+		calls, cbs := c31CaptureFacts(p)
+		if len(calls) == 0 {
+			fail("C31: no call of fillExpandConfig found")
+		}
+		facts["c31capture"] = map[string]any{"fill_calls": calls, "callbacks": cbs}
+	})
+}
